@@ -170,6 +170,11 @@ impl Prop for C14 {
             2 => (prop_oneof![Just(1899i32), Just(1900), Just(1999), Just(2000), Just(2099), Just(2100), Just(2023), Just(2024)], -40..=5i64)
                 .prop_map(|(y, o)| gen::ymd(y, 12, 31) + chrono::Duration::days(o)),
             2 => (1600..=2399i32, -5..=2i64).prop_map(|(y, o)| gen::ymd(y, 2, 28) + chrono::Duration::days(o)),
+            // the statement quantifies over *all* start/end pairs: calendar seams outside 1600-2399 as well
+            // (the Julian/Gregorian switch of the library's Julian Day in October 1582, the year 0/1 seam, far years)
+            1 => (-40..=20i64).prop_map(|o| gen::ymd(1582, 10, 15) + chrono::Duration::days(o)),
+            1 => (-40..=20i64).prop_map(|o| gen::ymd(1, 1, 1) + chrono::Duration::days(o)),
+            1 => (-2000..=6000i32, 1u32..=12, 1u32..=28).prop_map(|(y, m, d)| gen::ymd(y, m, d)),
         ];
         (start, 0u32..=64, 0u8..6, 0u8..10, 0.0..1.0f64, -3..=3i64)
             .prop_map(|(start, k, setup, kind, u, jitter)| {
@@ -231,7 +236,7 @@ impl Prop for C14 {
         Ok(())
     }
     fn rule(&self) -> String {
-        "enumerated: all (length -3..=130, parts 0..=64) at 3 start dates (26,130 partition checks, 402 range-API comparisons) in both tiers; generated: start anywhere in 1600-2399 with mass near year ends 1899/1900/1999/2000/2099/2100 and Feb 28/29, length in -400..=2000 with mass at -2..2 and at (near) multiples of k, k in 0..=64, one of 6 (site, params) setups. For each case: num_days, partition structure, and the range API's keys and values against the single-date API (every date up to 400 days, 16 sampled dates beyond). Non-trivial = non-empty range with k>=2, or an empty/reversed range".into()
+        "enumerated: all (length -3..=130, parts 0..=64) at 3 start dates (26,130 partition checks, 402 range-API comparisons) in both tiers; generated: start anywhere in 1600-2399 with mass near year ends 1899/1900/1999/2000/2099/2100 and Feb 28/29, plus starts around 1582-10-15, around 0001-01-01 and in years -2000..6000, length in -400..=2000 with mass at -2..2 and at (near) multiples of k, k in 0..=64, one of 6 (site, params) setups. For each case: num_days, partition structure, and the range API's keys and values against the single-date API (every date up to 400 days, 16 sampled dates beyond). Non-trivial = non-empty range with k>=2, or an empty/reversed range".into()
     }
     fn assumptions(&self) -> Vec<String> {
         vec![
